@@ -5,6 +5,7 @@ import argparse
 import fnmatch
 import hashlib
 import importlib
+import importlib.util
 import json
 import multiprocessing as mp
 import os
@@ -69,6 +70,9 @@ def match_known(known, inst_name, cand):
         if pred:
             env = {k.replace("[", "_").replace("]", ""): v for k, v in cand["vals"].items()}
             env["params"] = cand.get("params", {})
+            env["funcs"] = cand.get("funcs", {})
+            env["rvals"] = [e[1] for n, f in cand.get("funcs", {}).items() if n.startswith("R_") for e in f["entries"]]
+            env["msg"] = (cand.get("concrete") or {}).get("msg") or ""
             try:
                 if not eval(pred, {"__builtins__": {"abs": abs, "min": min, "max": max, "len": len, "any": any, "all": all}}, env):  # noqa: S307
                     continue
@@ -87,6 +91,7 @@ def main(argv=None):
     ap.add_argument("--only", default=None, help="glob over instance names (development aid; evidence says so)")
     ap.add_argument("--verbose", "-v", action="store_true")
     ap.add_argument("--no-evidence", action="store_true")
+    ap.add_argument("--dump", default=None, help="write the raw per-instance results to this JSON file (development aid)")
     args = ap.parse_args(argv)
     seed = int(os.environ.get("VERIF_SEED", "0") or 0)
     prop = args.prop
@@ -133,6 +138,8 @@ def main(argv=None):
                 for m in r.get("inconclusive", [])[:3]:
                     print("    INCONCLUSIVE", str(m)[:600])
     results.sort(key=lambda r: r["name"])
+    if args.dump:
+        json.dump(results, open(args.dump, "w"), default=str)
     return report(prop, args, seed, hm, results, time.time() - t0)
 
 
